@@ -31,7 +31,7 @@ BOUNDS = {"quick": "L = 3, P = 6, pair mutations restricted to rdlength x rdata"
 ASSUMPTIONS = ["termination is decided by a step budget ~35x above the costliest legitimate decode of the space, not by a proof",
                "Message.fromStr is the decode entry point of both protocols (checked against datagramReceived/dataReceived at "
                "run time: family (b) seeds are also pushed through both protocol classes)"]
-MIN = {"quick": {"evaluations": 440000, "nontrivial": 350000, "outcomes": 4},
+MIN = {"quick": {"evaluations": 360000, "nontrivial": 275000, "outcomes": 4},
        "thorough": {"evaluations": 2700000, "nontrivial": 2100000, "outcomes": 4}}
 
 BUDGET = 20000
@@ -246,7 +246,6 @@ def run_shard(shard, tier, seed):
     fam, j, n = shard
     st = Stats()
     maxlines = 0
-    seen = set()
     udp = None
     if fam == "b":
         from twisted.names import dns
